@@ -46,6 +46,7 @@ def run_case(ctx, gd, ev, cls, g=None, cards=None):
 
 
 def run_shard(ctx):
+    gg.ALLOW_ODD = True  # node names that are not Python identifiers are node names like any other
     mon_cf.install_idstar()
     mon_cf.CONFIG.update(K={"quick": 2, "thorough": 3}[ctx.tier])
     rng = ctx.rng
